@@ -18,6 +18,7 @@ type Excl struct {
 	R8  bool // scan over a locked key that has no write record yet
 	F1  bool // one user key in two L0 tables
 	R3  bool // one user key in two ingest-buffer tables of a level
+	R21 bool // commit re-sent at the recorded version while lock and commit record coexist
 	R20 bool // draining the ingest buffer into a non-empty base level
 	F2  bool // multi-block tables (large values)
 }
@@ -27,6 +28,7 @@ type Profile struct {
 	MaxSteps            int
 	WRead, WMaint, WDup int // weights relative to 10 for the transactional mix
 	WCheck              int
+	WPartial            int  // weight of a commit made to fail between its two engine writes
 	HotKey              bool // C19: concentrate on few keys
 	Excl                Excl
 }
@@ -63,6 +65,12 @@ type gen struct {
 	mainUsed  bool           // the base level's main tables are non-empty
 	overlapL0 bool           // this case may keep one user key in several L0 tables (then L0 is never moved while R3 is open)
 	commitTs  map[uint64]bool
+	// per-key counters of engine writes to the lock / write CF (what the hot-key write
+	// throttle counts), tracked to place a WriteHotKeyLimit exactly between the two
+	// engine writes of a commit
+	lockW, wrW map[int]int
+	partial    *gtxn // transaction left with lock + commit record by the last partial commit
+	partialKey int
 }
 
 // Most key sets contain byte-prefix-related user keys: record scans that decide
@@ -82,7 +90,7 @@ func Generate(t *rapid.T, p Profile) GCase {
 		nk = rapid.IntRange(1, 2).Draw(t, "nkeys-hot")
 	}
 	ks := rapid.SampledFrom(keySets).Draw(t, "keyset")[:nk]
-	g := &gen{t: t, p: p, nk: nk, m: NewModel(nk), next: 1, dirty: map[int]bool{}, commitTs: map[uint64]bool{}}
+	g := &gen{t: t, p: p, nk: nk, m: NewModel(nk), next: 1, dirty: map[int]bool{}, commitTs: map[uint64]bool{}, lockW: map[int]int{}, wrW: map[int]int{}}
 	g.overlapL0 = rapid.Bool().Draw(t, "overlap-l0")
 	n := rapid.IntRange(3, p.MaxSteps).Draw(t, "nsteps")
 	for i := 0; i < n; i++ {
@@ -105,8 +113,9 @@ func (g *gen) alloc() uint64 {
 }
 
 func (g *gen) one() {
-	w := []int{0, 0, 0, 0, 0, 0, 0, 0, 0}
-	// 0 new txn, 1 prewrite existing, 2 commit, 3 rollback, 4 resolve, 5 check, 6 dup, 7 read, 8 maint
+	w := []int{0, 0, 0, 0, 0, 0, 0, 0, 0, 0, 0}
+	// 0 new txn, 1 prewrite existing, 2 commit, 3 rollback, 4 resolve, 5 check, 6 dup, 7 read, 8 maint,
+	// 9 commit failing between its two engine writes, 10 follow-up on such a partial commit
 	if len(g.txns) < 5 {
 		w[0] = 4
 		if len(g.txns) == 0 {
@@ -121,6 +130,12 @@ func (g *gen) one() {
 	}
 	w[7] = g.p.WRead
 	w[8] = g.p.WMaint
+	if len(g.txns) > 0 {
+		w[9] = g.p.WPartial
+	}
+	if g.partial != nil {
+		w[10] = 6
+	}
 	switch g.weighted(w, "kind") {
 	case 0:
 		g.newTxn()
@@ -140,6 +155,12 @@ func (g *gen) one() {
 		g.read(rapid.Bool().Draw(g.t, "isget"))
 	case 8:
 		g.maint()
+	case 9:
+		if !g.partialCommit(g.pickTxn(pickHolder)) {
+			g.commit(g.pickTxn(pickHolder))
+		}
+	case 10:
+		g.followPartial()
 	}
 }
 
@@ -230,9 +251,104 @@ func (g *gen) emit(s Step) Expect {
 	if s.Op == OpCheck {
 		g.dirty[s.Primary] = true
 	}
+	type snap struct {
+		has    bool
+		l      MLock
+		writes int
+	}
+	before := make([]snap, g.nk)
+	for k := range before {
+		if l := g.m.Keys[k].Lock; l != nil {
+			before[k].has, before[k].l = true, *l
+		}
+		before[k].writes = len(g.m.Keys[k].Writes)
+	}
 	e := g.m.Apply(s, nil)
+	for k := range before {
+		l := g.m.Keys[k].Lock
+		if (l != nil) != before[k].has || (l != nil && *l != before[k].l) {
+			g.lockW[k]++ // one engine write to the lock CF of k
+		}
+		if len(g.m.Keys[k].Writes) > before[k].writes {
+			g.wrW[k]++
+		}
+	}
 	g.steps = append(g.steps, s)
 	return e
+}
+
+// r21bad: committing (k,start) at version cv would hit the leftover state "lock and
+// commit record coexist" with the recorded commit version.
+func (g *gen) r21bad(k int, start, cv uint64) bool {
+	l := g.m.Keys[k].Lock
+	w := g.m.WriteByStart(k, start)
+	return l != nil && l.Ts == start && w != nil && w.Kind != KRoll && w.Commit == cv
+}
+
+// partialCommit makes a Commit fail between its two engine writes: the hot-key
+// limit is set so that the write record of key k is still accepted and the removal
+// of the lock is refused; afterwards the limit is lifted again.
+func (g *gen) partialCommit(tx *gtxn) bool {
+	var cand []int
+	for _, mu := range tx.muts {
+		k := mu.K
+		l := g.m.Keys[k].Lock
+		if l == nil || l.Ts != tx.start || g.m.WriteByStart(k, tx.start) != nil {
+			continue
+		}
+		if g.wrW[k]+1 < g.lockW[k]+1 && g.lockW[k]+1 >= 2 {
+			cand = append(cand, k)
+		}
+	}
+	if len(cand) == 0 {
+		return false
+	}
+	k := cand[rapid.IntRange(0, len(cand)-1).Draw(g.t, "partial-key")]
+	cv := g.commitVersion(tx)
+	l := g.m.Keys[k].Lock
+	if l.MinCommit > cv {
+		return false
+	}
+	g.add(Step{Op: OpHotLimit, N: g.lockW[k] + 1})
+	// not through emit: the generation-time model must end up in the partial state
+	g.dirty[k] = true
+	g.steps = append(g.steps, Step{Op: OpCommit, Start: tx.start, Commit: cv, Keys: []int{k}})
+	g.m.Keys[k].Writes = append(g.m.Keys[k].Writes, MWrite{Commit: cv, Start: tx.start, Kind: l.Kind})
+	g.wrW[k]++
+	g.lockW[k]++ // the refused touch is counted as well
+	g.add(Step{Op: OpHotLimit, N: 0})
+	g.partial, g.partialKey = tx, k
+	return true
+}
+
+// followPartial sends a request that must respect the commit record left behind by
+// a partial commit: rollback-type requests must not undo it, a commit completes it.
+func (g *gen) followPartial() {
+	tx, k := g.partial, g.partialKey
+	l := g.m.Keys[k].Lock
+	if l == nil || l.Ts != tx.start {
+		g.partial = nil
+		g.rollback(tx)
+		return
+	}
+	switch rapid.IntRange(0, 5).Draw(g.t, "follow-partial") {
+	case 0:
+		g.emit(Step{Op: OpRollback, Start: tx.start, Keys: []int{k}})
+	case 1:
+		g.emit(Step{Op: OpResolve, Start: tx.start, Keys: []int{k}})
+	case 2:
+		if k == tx.primary {
+			g.emit(Step{Op: OpCheck, Start: tx.start, Primary: k, Cur: tx.start + tx.ttl + 1, RBNE: rapid.Bool().Draw(g.t, "rbne")})
+			return
+		}
+		g.emit(Step{Op: OpRollback, Start: tx.start, Keys: tx.keys(true)})
+	case 3:
+		g.commit(tx)
+	case 4:
+		g.read(true)
+	default:
+		g.resolve(tx)
+	}
 }
 
 func (g *gen) newTxn() {
@@ -385,7 +501,22 @@ func (g *gen) commit(tx *gtxn) {
 			return
 		}
 	}
-	g.emit(Step{Op: OpCommit, Start: tx.start, Commit: g.commitVersion(tx), Keys: keys})
+	cv := g.commitVersion(tx)
+	if g.p.Excl.R21 {
+		var keep []int
+		for _, k := range keys {
+			if g.r21bad(k, tx.start, cv) {
+				g.excl++
+				continue
+			}
+			keep = append(keep, k)
+		}
+		keys = keep
+		if len(keys) == 0 {
+			return
+		}
+	}
+	g.emit(Step{Op: OpCommit, Start: tx.start, Commit: cv, Keys: keys})
 }
 
 // r1bad: rolling back (k,start) would write a tombstone default@start below the
@@ -441,6 +572,20 @@ func (g *gen) resolve(tx *gtxn) {
 	} else if len(tx.commits) > 0 && rapid.IntRange(0, 4).Draw(g.t, "rogue-resolve") == 0 {
 		cv = tx.commits[len(tx.commits)-1]
 	}
+	if g.p.Excl.R21 && cv != 0 {
+		var keep []int
+		for _, k := range keys {
+			if g.r21bad(k, tx.start, cv) {
+				g.excl++
+				continue
+			}
+			keep = append(keep, k)
+		}
+		keys = keep
+		if len(keys) == 0 {
+			return
+		}
+	}
 	g.emit(Step{Op: OpResolve, Start: tx.start, Commit: cv, Keys: keys})
 }
 
@@ -483,13 +628,15 @@ func (g *gen) dup() {
 	s.Keys = append([]int(nil), s.Keys...)
 	// the same exclusions apply to a re-sent request
 	switch s.Op {
-	case OpCommit:
-		if g.p.Excl.R5 {
-			for _, k := range s.Keys {
-				if w := g.m.WriteByStart(k, s.Start); w != nil && w.Kind == KRoll {
-					g.excl++
-					return
-				}
+	case OpCommit, OpResolve:
+		for _, k := range s.Keys {
+			if w := g.m.WriteByStart(k, s.Start); s.Op == OpCommit && g.p.Excl.R5 && w != nil && w.Kind == KRoll {
+				g.excl++
+				return
+			}
+			if g.p.Excl.R21 && s.Commit != 0 && g.r21bad(k, s.Start, s.Commit) {
+				g.excl++
+				return
 			}
 		}
 	case OpRollback:
